@@ -83,7 +83,7 @@ func driveXIBC(t *testing.T, in, out string, seed int64) {
 			pre, vpre := w.FullDigest(on), w.ValueDigest(on)
 			switch act {
 			case "Send":
-				spec := SendSpec{Src: on, Dst: str(st["dst"]), Kind: str(st["kind"]), Amt: num(st["amt"]), Call: str(st["call"]), Fee: num(st["fee"])}
+				spec := SendSpec{Src: on, Dst: str(st["dst"]), Kind: str(st["kind"]), Amt: num(st["amt"]), Call: str(st["call"]), Fee: num(st["fee"]), Via: str(st["via"])}
 				nextSeq := w.Chains[on].App.XIBCKeeper.PacketKeeper.GetNextSequenceSend(w.Chains[on].Ctx(), w.ID[on], w.ID[spec.Dst])
 				r := w.Send(spec)
 				line["res"], line["msg"] = resOf(r), clip(r.Log+r.VMError)
